@@ -249,7 +249,7 @@ func init() {
 		Assume: append([]string{"single fault (error without effect) or single crash per operation; restart = new plugin over the same API objects, pod events pending at the crash are lost"}, assumeIPAM...),
 		Rule: "for every transition (history, op) of the history BFS (depth in `bounds`) and every index k of an API-server call made by op: re-execute with the k-th call failing (memory/store agreement, " +
 			"restart reconstructs the same tables) and with the process dying right before / right after the k-th call (restart; resync; recovery oracle); one evaluation = one re-execution; " +
-			"distinct/non-trivial = distinct (history, k, resulting canonical state) triples whose state differs from the fault-free successor (faults) resp. in which the crash actually fired (crashes)",
+			"plus, at the IPAM interface itself, every writing method over a small argument menu from five allocation states with every API call failing; distinct/non-trivial = distinct (history, k, resulting canonical state) triples whose state differs from the fault-free successor (faults) resp. in which the crash actually fired (crashes)",
 		Jobs: func(tier string) []Job {
 			depth := 6
 			if tier == "thorough" {
@@ -263,7 +263,7 @@ func init() {
 				}
 				jobs = append(jobs, c05Job(h, d, false), c05Job(h, d, true))
 			}
-			return jobs
+			return append(jobs, c05IpamJob())
 		}})
 	replayers["C05"] = func(tier string, v coop.Violation) int {
 		fmt.Println("history:", v.Trace)
